@@ -11,6 +11,7 @@ package sim
 import (
 	"fmt"
 	"net"
+	"os"
 	"strings"
 	"time"
 
@@ -100,6 +101,7 @@ func runC11(m *Sim) {
 	adversarial := true
 	w.DialPolicy = func(address string) DialAction {
 		dials++
+		w.Logf("dial %s adversarial=%v", address, adversarial)
 		host := address
 		if i := strings.LastIndex(address, ":"); i >= 0 {
 			host = address[:i]
@@ -256,14 +258,63 @@ func runC11(m *Sim) {
 			}
 		}
 	}
+	if cl.C != nil {
+		st := cl.C.VerifState()
+		for k, e := range st.Servers {
+			w.Logf("liveness phase: server %s banned=%v loc=%s", RoleOf(k), e.Banned, e.Location)
+		}
+		logs, order := cl.C.EventLog.DumpLogEntries()
+		for _, l := range order {
+			w.Logf("client log: %s x%d", l, len(logs[l]))
+		}
+	}
 	e0, d0 := emitted, dials
-	for i := 0; i < 64; i++ {
+	nlive := 64
+	if os.Getenv("VERIF_DEBUG_C11") != "" {
+		nlive = 200
+	}
+	for i := 0; i < nlive; i++ {
 		slot++
 		SetSlot(slot)
 		cl.MeterAppend(slot, "6100", 10)
 		w.Advance(63 * time.Millisecond)
 		w.PumpUDP()
 		monotone("liveness")
+		// A reply that was still in flight when the adversarial phase ended
+		// may ban the last usable server: from then on not dialling is right.
+		if cl.C != nil {
+			usable := false
+			for _, e := range cl.C.VerifState().Servers {
+				if !e.Banned {
+					usable = true
+				}
+			}
+			if !usable {
+				allBanned = true
+			}
+		}
+		if os.Getenv("VERIF_DEBUG_C11") != "" && i%10 == 0 {
+			var names []string
+			for _, p := range w.S.Parked(true) {
+				names = append(names, p.Name+"@"+p.Site)
+			}
+			tail := w.ReleaseLog
+			if len(tail) > 6 {
+				tail = tail[len(tail)-6:]
+			}
+			fmt.Fprintf(os.Stderr, "DEBUG i=%d t=%v emitted=%d dials=%d parked=%v lastrel=%v\n", i, time.Since(m.Start), emitted, dials, names, tail)
+			if i%50 == 0 {
+				logs, order := cl.C.EventLog.DumpLogEntries()
+				for _, l := range order {
+					fmt.Fprintf(os.Stderr, "DEBUG   log: %s x%d\n", l, len(logs[l]))
+				}
+				st := cl.C.VerifState()
+				fmt.Fprintf(os.Stderr, "DEBUG   state: primary=%s servers=%d\n", RoleOf(st.PrimaryServer), len(st.Servers))
+				for k, e := range st.Servers {
+					fmt.Fprintf(os.Stderr, "DEBUG   server %s %+v\n", RoleOf(k), e)
+				}
+			}
+		}
 		if time.Since(m.Start) > 100*time.Second {
 			break
 		}
